@@ -71,7 +71,7 @@ func (d *Device) handleKEYEvent(ie *input.InputEvent) {
 		// workaround for the case where keyboard mapping has ben changed while some key related to midi note
 		// is still active and new mapping doesn't point to any note, therefore noteOk was evaluated to false
 		if ie.Event.Value == EV_KEY_RELEASE {
-			_, ok := d.noteTracker[ie.Event.Code]
+			_, ok := d.noteTracker[noteKey{ie.Source.Name, ie.Event.Code}]
 			if ok {
 				d.NoteOff(ie)
 				break
@@ -354,16 +354,16 @@ func (d *Device) ProcessEvents(inputEvents <-chan *input.InputEvent) {
 		log.Info("active midi notes cleanup", d.logFields(logger.Debug)...)
 	}
 
-	for evcode := range d.noteTracker {
+	for key := range d.noteTracker {
 		d.NoteOff(&input.InputEvent{
 			Source: input.Handler{
-				Name:       "",
+				Name:       key.subhandler,
 				DeviceInfo: input.DeviceInfo{Name: "shutdown cleanup"},
 			},
 			Event: evdev.InputEvent{
 				Time:  syscall.Timeval{},
 				Type:  evdev.EV_KEY,
-				Code:  evcode,
+				Code:  key.code,
 				Value: 0,
 			},
 		})
